@@ -605,10 +605,12 @@ theorem run_cases (i : Input) : run i = errObs ∨ run i = sigObs := by
       | some _ =>
         simp only
         split
-        · exact hraw ks hks
+        · simp
         · split
-          · exact henv
-          · simp
+          · exact hraw ks hks
+          · split
+            · exact henv
+            · simp
 
 /-! ### property theorems -/
 
@@ -674,6 +676,9 @@ theorem run_sig_required (i : Input) (h : (run i).outcome = .sig) :
       | none => simp [hb] at h; exact absurd h sig_ne_err
       | some _ =>
         simp only [hb] at h
+        by_cases hgen : i.gen = .failing
+        · simp [hgen] at h; exact absurd h sig_ne_err
+        simp only [hgen, beq_iff_eq, if_false] at h
         by_cases hr : hasRaw i.cap = true
         · simp only [hr, if_true] at h
           exact ⟨raw_sig i ks hks hr h, by simp [pathOf, hr]⟩
@@ -835,6 +840,36 @@ theorem trailing_data_refused (i : Input) (hp : pathOf i = .envelope)
 /-- blanks between the tokens of the document do not matter -/
 theorem spacing_ignored (i : Input) (b : Bool) : run { i with spaced := b } = run i := rfl
 
+/-- an answer labelled with another envelope type than the requested one - even a truthful label of a
+well-formed envelope in the OTHER registered format - is never handed back -/
+theorem other_format_refused (i : Input) (hp : pathOf i = .envelope)
+    (h : i.echo ≠ .requested ∨ i.envFmt ≠ i.format) : (run i).outcome ≠ .sig := by
+  intro hs
+  have hc := (run_sig_required i hs).2 hp
+  simp only [envChecks, Bool.and_eq_true, Input.echoOk, beq_iff_eq] at hc
+  obtain ⟨⟨⟨⟨⟨⟨⟨⟨⟨h1, _⟩, h3⟩, _⟩, _⟩, _⟩, _⟩, _⟩, _⟩, _⟩ := hc
+  rcases h with h | h
+  · exact h h1
+  · exact h h3
+
+/-- SignBlob with a generator that fails returns an error; which generator it is otherwise (called
+once) makes no difference to the answer -/
+theorem failing_generator_refused (i : Input) (ha : i.api = .signBlob) (hg : i.gen = .failing) :
+    run i = errObs := by
+  unfold run
+  by_cases hm : i.pluginErr = .metadata
+  · simp [hm]
+  simp only [hm, beq_iff_eq, if_false, ha]
+  cases getKeySpec i with
+  | none => rfl
+  | some ks =>
+    simp only
+    cases blobDigestAlg ks with
+    | none => rfl
+    | some _ => simp [hg]
+
+theorem honest_blob_ignored (i : Input) (b : Bool) (s : String) : run { i with honest := b, blob := s } = run i := rfl
+
 /-- `response.SigningAlgorithm` of GenerateSignature is never read: the algorithm is fixed by
 the described key spec and checked against the leaf certificate instead -/
 theorem response_algorithm_ignored (i : Input) (a : String) : run { i with gsAlg := a } = run i := rfl
@@ -844,12 +879,13 @@ decoder merges them into the requested descriptor, a last-wins reader sees no di
 def findingWitness : Input :=
   { api := .sign, cap := .envelope, format := .jws, key := .ec256,
     req := { mediaType := "m", digest := "sha256:00", size := 7, annotations := [] },
-    pluginErr := .noErr, dkKeyIdOk := true, dkKeySpec := "EC-256", echoOk := true, envFmt := .jws,
+    pluginErr := .noErr, dkKeyIdOk := true, dkKeySpec := "EC-256", echo := .requested, envFmt := .jws,
     garbage := false, ctypeOk := true,
     payload := .obj [("targetArtifact", .obj [("mediaType", .str "m"), ("digest", .str "sha256:00")]),
                      ("targetArtifact", .obj [("size", .num 7)])],
     lead := "", trail := "", spaced := false,
-    gsKeyIdOk := true, gsAlg := "ECDSA-SHA-256", sigMode := .good, chain := .ok, dupKeys := true,
+    gsKeyIdOk := true, gsAlg := "ECDSA-SHA-256", sigMode := .good, chain := .ok, gen := .fixed, blob := "",
+    honest := false, dupKeys := true,
     emptyAnnMap := false }
 
 theorem former_finding_refused :
